@@ -201,10 +201,7 @@ mutual
            | none => set { s with defaults := (inst.id, slotName) :: s.defaults })
           if slotName ≠ defaultKey && (cGet slotName inst.fills).isSome && (cGet defaultKey inst.fills).isSome then
             throw (.tse "slot filled twice")
-        (match nameV with
-         | .list _ => throw (.typeError "unhashable slot name")
-         | .dict _ => throw (.typeError "unhashable slot name")
-         | _ => pure ())
+        if !hashable nameV then throw (.typeError "unhashable slot name")
         let fillName := if isDefault && (cGet defaultKey inst.fills).isSome then defaultKey else slotName
         match cGet fillName inst.fills with
         | none =>
